@@ -18,7 +18,7 @@ from .c13 import add_scaling, daqmx_scaled_world, _first_listing, small_values
 
 PROP = 'C14'
 LEVEL = 'exploration'
-N = {'quick': 40000, 'thorough': 1200000}
+N = {'quick': 30000, 'thorough': 1200000}
 RULE = ('seeded worlds over every raw type x {no scaling, structural scale graphs (as C13), one sensor scale: RTD / '
         'Thermocouple / Thermistor / Strain with benign parameters, optionally chained after a Linear scale}, DAQmx '
         'worlds, typeless and zero-length channels, big-endian segments; on an eager and a lazy handle every '
